@@ -3,7 +3,7 @@
    path of the code opens and closes.  Proofs.v/ProofsVfs.v show M = R on every call free of kind conflicts. *)
 From Coq Require Import List ZArith Bool Lia.
 Import ListNotations.
-From GU Require Import C06.Model.
+From GU Require Import C06.Model C06.Facts C06.Gen.
 Local Open Scope Z_scope.
 
 (* ---- back-end primitives (POSIX semantics, as afero.OsFs; no file on the way: kind conflicts are excluded) ---- *)
@@ -66,14 +66,22 @@ Definition m_touch t p (tr : bool) : mres :=
        | inr BOther => mkM (RErr EOther) t h h
        end.
 
-(* WriteFile / WriteToFile (:408-452): OpenFile(O_WRONLY|O_CREATE|O_TRUNC); defer Close; copy; 0 bytes -> 'empty'; Close *)
-Definition m_write t p (c : list Z) : mres :=
-  match b_create t p with
-  | inr BNotFound => mkM (RErr ENotFound) t O O
-  | inr BOther => mkM (RErr EOther) t O O
-  | inl t1 => let t2 := set_file t1 p c in
-              mkM (match c with [] => RErr EEmpty | _ => ROk end) t2 1 1
-  end.
+(* WriteFile / WriteToFile (:408-452): OpenFile(O_WRONLY [|O_CREATE] [|O_TRUNC]: facts); [defer Close: a fact]; copy;
+   0 bytes -> 'empty'; Close *)
+Definition m_write (fa : facts) t p (c : list Z) : mres :=
+  if is_dir t p then mkM (RErr EOther) t O O
+  else if negb (is_dir t (parent p)) then mkM (RErr ENotFound) t O O
+  else
+    let opened (t1 : tree) (old : list Z) :=
+      let t2 := set_file t1 p (c ++ skipn (length c) old) in
+      match c with
+      | [] => mkM (RErr EEmpty) t2 1 (if f_write_close_deferred fa then 1%nat else O)   (* returns before the explicit Close *)
+      | _ => mkM ROk t2 1 1
+      end in
+    match lookup t p with
+    | Some (F old) => if f_write_trunc fa then opened (set_file t p []) [] else opened t old
+    | _ => if f_write_create fa then opened (set_file t p []) [] else mkM (RErr ENotFound) t O O
+    end.
 
 (* ReadFile (:315-401): GenericOpen; defer Close; ReadAtMost (no bytes -> 'empty') *)
 Definition m_read t p : mres :=
@@ -169,29 +177,39 @@ Definition rm_fuel (t : tree) : nat := S (length t).
 Definition lift3 (x : option (res * tree * nat)) : option mres :=
   match x with Some (r, t, h) => Some (mkM r t h h) | None => None end.
 
-(* ---- Copy (files.go CopyBetweenFSWithExclusionRegexes, copyFolder..., copyFile..., with the C06 fixes) ---- *)
+(* ---- handle accounting for the functions whose Closes are deferred: opened, closed ---- *)
+Definition hs := (nat * nat)%type.
+Definition hb (n : nat) : hs := (n, n).                                   (* n handles opened and closed *)
+Definition hadd (a b : hs) : hs := (fst a + fst b, snd a + snd b)%nat.
+Infix "+h" := hadd (at level 50, left associativity).
+Definition lift4 (x : option (res * tree * hs)) : option mres :=
+  match x with Some (r, t, h) => Some (mkM r t (fst h) (snd h)) | None => None end.
 
-(* copyFile: GenericOpen(src); defer Close; CreateFile(dst); defer Close; copy; Close both.  Two handles. *)
-Definition m_copy_file (t : tree) (s dst : path) : res * tree * nat :=
+(* ---- Copy (files.go CopyBetweenFSWithExclusionRegexes, copyFolder..., copyFile...), parameterised by the generated facts ---- *)
+
+(* copyFile: GenericOpen(src); [defer Close]; CreateFile(dst); [defer Close]; copy; Close both.
+   When CreateFile fails the source handle is closed only by its deferred Close. *)
+Definition m_copy_file (fa : facts) (t : tree) (s dst : path) : res * tree * hs :=
+  let after_src_only : hs := (1%nat, if f_copyfile_src_close_deferred fa then 1%nat else O) in
   match b_stat t s with
   | Some (F c) => match b_create t dst with
-                  | inl t1 => (ROk, set_file t1 dst c, 2%nat)
-                  | inr BNotFound => (RErr ENotFound, t, 1%nat)
-                  | inr BOther => (RErr EOther, t, 1%nat)
+                  | inl t1 => (ROk, set_file t1 dst c, hb 2)
+                  | inr BNotFound => (RErr ENotFound, t, after_src_only)
+                  | inr BOther => (RErr EOther, t, after_src_only)
                   end
-  | Some D => (RErr EOther, t, 1%nat)
-  | None => (RErr ENotFound, t, O)
+  | Some D => (RErr EOther, t, after_src_only)
+  | None => (RErr ENotFound, t, hb 0)
   end.
 
 (* the loop of copyFolder over the names of the source: Copy(src/name, dst) for each; the first error stops it *)
-Fixpoint copy_children (cp : tree -> path -> option (res * tree * nat)) (s : path) (ns : list name) (t0 : tree) (h : nat)
-  : option (res * tree * nat) :=
+Fixpoint copy_children (cp : tree -> path -> option (res * tree * hs)) (s : path) (ns : list name) (t0 : tree) (h : hs)
+  : option (res * tree * hs) :=
   match ns with
   | [] => Some (ROk, t0, h)
   | n :: ns' => match cp t0 (s ++ [n]) with
                 | None => None
-                | Some (ROk, t1, h1) => copy_children cp s ns' t1 (h + h1)%nat
-                | Some (r, t1, h1) => Some (r, t1, (h + h1)%nat)
+                | Some (ROk, t1, h1) => copy_children cp s ns' t1 (h +h h1)
+                | Some (r, t1, h1) => Some (r, t1, h +h h1)
                 end
   end.
 
@@ -199,74 +217,79 @@ Definition is_dir_b (t : tree) (p : path) : bool := match b_stat t p with Some D
 Definition m_mkdir3 (t : tree) (p : path) : res * tree * nat := let m := m_mkdir t p in (m_r m, m_t m, m_opened m).
 
 (* CopyBetweenFSWithExclusionRegexes(src, dest) — src == dest; Exists(src); IsDir(src); Exists(dest), IsDir(dest);
-   a directory is not copied into itself nor over one of its parents; creation of the destination (the shape table);
-   dst; copyFolder (MkDir(dst), IsEmpty(src), Ls(src), loop) or copyFile (same file: nothing; over a directory: refused). *)
-Fixpoint m_copy (fuel : nat) (t : tree) (s : path) (str : bool) (d : path) (dtr : bool) {struct fuel}
-  : option (res * tree * nat) :=
+   the guards "a directory is not copied into itself / over one of its parents" (present or not, before or after the creation
+   of the destination: facts); creation of the destination (the shape table); dst; copyFolder (MkDir(dst), IsEmpty(src), Ls(src),
+   loop) or copyFile (same file — compared with dst or with dest: a fact —: nothing; over a directory: refused or not: a fact). *)
+Fixpoint m_copy (fa : facts) (fuel : nat) (t : tree) (s : path) (str : bool) (d : path) (dtr : bool) {struct fuel}
+  : option (res * tree * hs) :=
   match fuel with
   | O => None
   | S f =>
-      if path_eqb s d && Bool.eqb str dtr then Some (ROk, t, O)
+      if path_eqb s d && Bool.eqb str dtr then Some (ROk, t, hb O)
       else
         let '(es, h1) := m_exists t s in
-        if negb es then Some (RErr ENotFound, t, h1)
+        if negb es then Some (RErr ENotFound, t, hb h1)
         else
           let src_dir := is_dir_b t s in
           let '(ed, h2) := m_exists t d in
           let dest_dir0 := ed && is_dir_b t d in
           let target := if dest_dir0 then d ++ [base s] else d in
-          let h := (h1 + h1 + h2 + h2)%nat in
-          if src_dir && (is_prefix s target || is_prefix target s) then Some (RErr EInvalid, t, h)
+          let h := hb (h1 + h1 + h2 + h2) in
+          let guard := src_dir && ((f_copy_into_itself_guard fa && is_prefix s target)
+                                   || (f_copy_over_parent_guard fa && is_prefix target s)) in
+          if f_copy_guards_before_create fa && guard then Some (RErr EInvalid, t, h)
           else
             let '(r1, t1, hm) :=
               if ed then (ROk, t, O)
               else if src_dir || dtr then m_mkdir3 t d else m_mkdir3 t (parent d) in
             match r1 with
             | ROk =>
+                if negb (f_copy_guards_before_create fa) && guard then Some (RErr EInvalid, t1, h +h hb hm)
+                else
                 let dest_dir := if ed then dest_dir0 else src_dir || dtr in
                 let dst := if negb (src_dir && negb ed) && dest_dir then d ++ [base s] else d in
                 if src_dir then
                   let '(r2, t2, hm2) := m_mkdir3 t1 dst in
                   match r2 with
                   | ROk =>
-                      if m_empty_b t2 s then Some (ROk, t2, (h + hm + hm2 + 1)%nat)
-                      else copy_children (fun t0 c => m_copy f t0 c false dst false) s (b_readdirnames t2 s) t2 (h + hm + hm2 + 2)%nat
-                  | r => Some (r, t2, (h + hm + hm2)%nat)
+                      if m_empty_b t2 s then Some (ROk, t2, h +h hb (hm + hm2 + 1))
+                      else copy_children (fun t0 c => m_copy fa f t0 c false dst false) s (b_readdirnames t2 s) t2 (h +h hb (hm + hm2 + 2))
+                  | r => Some (r, t2, h +h hb (hm + hm2))
                   end
-                else if path_eqb s dst then Some (ROk, t1, (h + hm)%nat)
+                else if path_eqb s (if f_copy_samefile_resolved fa then dst else d) then Some (ROk, t1, h +h hb hm)
                 else
                   let '(e3, h3) := m_exists t1 dst in
-                  if e3 && is_dir_b t1 dst then Some (RErr EInvalid, t1, (h + hm + h3 + h3)%nat)
-                  else let '(r3, t3, h4) := m_copy_file t1 s dst in Some (r3, t3, (h + hm + h3 + h4)%nat)
-            | r => Some (r, t1, (h + hm)%nat)
+                  if f_copy_file_over_dir_refused fa && (e3 && is_dir_b t1 dst) then Some (RErr EInvalid, t1, h +h hb (hm + h3 + h3))
+                  else let '(r3, t3, h4) := m_copy_file fa t1 s dst in Some (r3, t3, h +h hb (hm + h3) +h h4)
+            | r => Some (r, t1, h +h hb hm)
             end
   end.
 
 (* CopyToFile (:1499-1536) *)
-Definition m_copytofile (fuel : nat) (t : tree) (s : path) (str : bool) (d : path) (dtr : bool) : option (res * tree * nat) :=
+Definition m_copytofile (fa : facts) (fuel : nat) (t : tree) (s : path) (str : bool) (d : path) (dtr : bool) : option (res * tree * hs) :=
   let '(f1, h1) := m_isfile t s in
-  if negb f1 then Some (RErr EInvalid, t, h1)
+  if negb f1 then Some (RErr EInvalid, t, hb h1)
   else
     let '(ed, h2) := m_exists t d in
     if ed then
       let '(f2, h3) := m_isfile t d in
-      if negb f2 then Some (RErr EInvalid, t, (h1 + h2 + h3)%nat)
-      else match m_copy fuel t s str d dtr with Some (r, t', h) => Some (r, t', (h1 + h2 + h3 + h)%nat) | None => None end
-    else if dtr then Some (RErr EInvalid, t, (h1 + h2)%nat)
-    else match m_copy fuel t s str d dtr with Some (r, t', h) => Some (r, t', (h1 + h2 + h)%nat) | None => None end.
+      if negb f2 then Some (RErr EInvalid, t, hb (h1 + h2 + h3))
+      else match m_copy fa fuel t s str d dtr with Some (r, t', h) => Some (r, t', hb (h1 + h2 + h3) +h h) | None => None end
+    else if dtr then Some (RErr EInvalid, t, hb (h1 + h2))
+    else match m_copy fa fuel t s str d dtr with Some (r, t', h) => Some (r, t', hb (h1 + h2) +h h) | None => None end.
 
 (* CopyToDirectory (:1543-1563): MkDir(destDirectory); Copy(src, destDirectory) *)
-Definition m_copytodir (fuel : nat) (t : tree) (a : parg) (d : path) (dtr : bool) : option (res * tree * nat) :=
+Definition m_copytodir (fa : facts) (fuel : nat) (t : tree) (a : parg) (d : path) (dtr : bool) : option (res * tree * hs) :=
   let '(r1, t1, h1) := m_mkdir3 t d in
   match r1 with
   | ROk => match a with
-           | PEmpty => Some (RErr ENotFound, t1, h1)             (* Exists("") is false *)
-           | P s str => match m_copy fuel t1 s str d dtr with Some (r, t', h) => Some (r, t', (h1 + h)%nat) | None => None end
+           | PEmpty => Some (RErr ENotFound, t1, hb h1)             (* Exists("") is false *)
+           | P s str => match m_copy fa fuel t1 s str d dtr with Some (r, t', h) => Some (r, t', hb h1 +h h) | None => None end
            end
-  | r => Some (r, t1, h1)
+  | r => Some (r, t1, hb h1)
   end.
 
-(* ---- Move (MoveWithContext with the C06 fixes; move; moveFolder; moveFile) ---- *)
+(* ---- Move (MoveWithContext; move; moveFolder; moveFile), parameterised by the generated facts ---- *)
 
 (* backend Rename, POSIX: onto nothing; a file onto a file; a directory onto an EMPTY directory; otherwise refused *)
 Definition b_rename (t : tree) (s d : path) : option tree :=
@@ -282,84 +305,104 @@ Definition b_rename (t : tree) (s d : path) : option tree :=
            end
   end.
 
-Fixpoint move_children (mv : tree -> path -> path -> option (res * tree * nat)) (s d : path) (ns : list name) (t0 : tree) (h : nat)
-  : option (res * tree * nat) :=
+Fixpoint move_children (mv : tree -> path -> path -> option (res * tree * hs)) (s d : path) (ns : list name) (t0 : tree) (h : hs)
+  : option (res * tree * hs) :=
   match ns with
   | [] => Some (ROk, t0, h)
   | n :: ns' => match mv t0 (s ++ [n]) (d ++ [n]) with
                 | None => None
-                | Some (ROk, t1, h1) => move_children mv s d ns' t1 (h + h1)%nat
-                | Some (r, t1, h1) => Some (r, t1, (h + h1)%nat)
+                | Some (ROk, t1, h1) => move_children mv s d ns' t1 (h +h h1)
+                | Some (r, t1, h1) => Some (r, t1, h +h h1)
                 end
   end.
 
-(* move(src, dest): MkDir(Dir(dest)); Rename; if the rename is refused (e.g. across devices): a directory is moved entry by
-   entry (moveFolder: MkDir(dest), IsEmpty, Ls, loop, then Remove(src)), a file is copied then removed (moveFile). *)
-Fixpoint m_move_raw (fuel : nat) (t : tree) (s d : path) {struct fuel} : option (res * tree * nat) :=
+(* move(src, dest): MkDir(Dir(dest)); Rename; if the rename is refused (e.g. across devices): IsDir(src) — or of dest: a fact —
+   chooses moveFolder (MkDir(dest), IsEmpty, Ls, loop, then Remove(src) — also when src was empty, or not: a fact) or
+   moveFile (copy, then remove). *)
+Fixpoint m_move_raw (fa : facts) (fuel : nat) (t : tree) (s d : path) {struct fuel} : option (res * tree * hs) :=
   match fuel with
   | O => None
   | S f =>
-      if path_eqb s d then Some (ROk, t, O)
+      if path_eqb s d then Some (ROk, t, hb O)
       else
         let '(r1, t1, h1) := m_mkdir3 t (parent d) in
         match r1 with
         | ROk =>
             match b_rename t1 s d with
-            | Some t2 => Some (ROk, t2, h1)
+            | Some t2 => Some (ROk, t2, hb h1)
             | None =>
                 let '(es, h2) := m_exists t1 s in
-                if negb es then Some (RErr ENotFound, t1, (h1 + h2)%nat)
-                else if is_dir_b t1 s then
+                if negb es then Some (RErr ENotFound, t1, hb (h1 + h2))
+                else if is_dir_b t1 (if f_move_fallback_isdir_src fa then s else d) then
                   let '(r2, t2, h3) := m_mkdir3 t1 d in
                   match r2 with
                   | ROk =>
+                      let empty := m_empty_b t2 s in
                       let looped :=
-                        if m_empty_b t2 s then Some (ROk, t2, (h1 + h2 + h3 + 1)%nat)
-                        else move_children (m_move_raw f) s d (b_readdirnames t2 s) t2 (h1 + h2 + h3 + 2)%nat in
+                        if empty then Some (ROk, t2, hb (h1 + h2 + h3 + 1))
+                        else move_children (m_move_raw fa f) s d (b_readdirnames t2 s) t2 (hb (h1 + h2 + h3 + 2)) in
                       match looped with
-                      | Some (ROk, t3, h4) => match m_rm (rm_fuel t3) t3 s with
-                                              | Some (r, t4, h5) => Some (r, t4, (h4 + h5)%nat)
-                                              | None => None
-                                              end
+                      | Some (ROk, t3, h4) =>
+                          if f_movefolder_always_removes_src fa || negb empty then
+                            match m_rm (rm_fuel t3) t3 s with
+                            | Some (r, t4, h5) => Some (r, t4, h4 +h hb h5)
+                            | None => None
+                            end
+                          else Some (ROk, t3, h4)
                       | x => x
                       end
-                  | r => Some (r, t2, (h1 + h2 + h3)%nat)
+                  | r => Some (r, t2, hb (h1 + h2 + h3))
                   end
                 else
-                  match m_copy (S f) t1 s false d false with
+                  match m_copy fa (S f) t1 s false d false with
                   | Some (ROk, t2, h3) => match b_remove t2 s with
-                                          | Some t3 => Some (ROk, t3, (h1 + h2 + h3)%nat)
-                                          | None => Some (RErr EOther, t2, (h1 + h2 + h3)%nat)
+                                          | Some t3 => Some (ROk, t3, hb (h1 + h2) +h h3)
+                                          | None => Some (RErr EOther, t2, hb (h1 + h2) +h h3)
                                           end
                   | x => x
                   end
             end
-        | r => Some (r, t1, h1)
+        | r => Some (r, t1, hb h1)
         end
   end.
 
-(* MoveWithContext: src == dest; Exists(src); IsDir(src); the destination resolved as mv does; onto itself: nothing;
-   into itself: invalid; a directory over a non-empty directory: 'already exists'; move. *)
-Definition m_move (fuel : nat) (t : tree) (s : path) (str : bool) (d : path) (dtr : bool) : option (res * tree * nat) :=
-  if path_eqb s d && Bool.eqb str dtr then Some (ROk, t, O)
-  else
-    let '(es, h1) := m_exists t s in
-    if negb es then Some (RErr ENotFound, t, h1)
-    else
-      let src_dir := is_dir_b t s in
-      let '(ed, h2) := m_exists t d in
-      let dest_dir := if ed then is_dir_b t d else dtr in
-      let target := if dest_dir then d ++ [base s] else d in
-      let h := (h1 + h1 + h2 + h2)%nat in
-      if path_eqb s target then Some (ROk, t, h)
-      else if is_prefix s target then Some (RErr EInvalid, t, h)
-      else
-        let '(et, h3) := m_exists t target in
-        if src_dir && et && is_dir_b t target && negb (m_empty_b t target) then Some (RErr EExists, t, (h + h3 + h3 + 1)%nat)
-        else match m_move_raw fuel t s target with
-             | Some (r, t', h4) => Some (r, t', (h + h3 + h4)%nat)
-             | None => None
-             end.
+(* MoveWithContext: its checks are run in the ORDER found in the source (a fact: the list of guards); each either returns or
+   lets the next one run; the resolution of the destination is one of them; then move(src, target). *)
+Record mstate := mkMs { ms_target : path; ms_h : nat }.
+
+Fixpoint m_move_guards (fa : facts) (gs : list mguard) (t : tree) (s : path) (str : bool) (d : path) (dtr : bool) (st : mstate)
+  : (res * nat) + mstate :=
+  match gs with
+  | [] => inr st
+  | g :: gs' =>
+      let next st' := m_move_guards fa gs' t s str d dtr st' in
+      let tg := ms_target st in
+      match g with
+      | GSameString => if path_eqb s d && Bool.eqb str dtr then inl (ROk, ms_h st) else next st
+      | GEmptyDest => next st                                    (* dest == "": not a root/<components> argument *)
+      | GMissingSrc => let '(es, h1) := m_exists t s in
+                       if negb es then inl (RErr ENotFound, (ms_h st + h1)%nat) else next (mkMs tg (ms_h st + h1 + h1))
+      | GResolve => let '(ed, h2) := m_exists t d in
+                    let dest_dir := if ed then is_dir_b t d else dtr in
+                    next (mkMs (if dest_dir then d ++ [base s] else d) (ms_h st + h2 + h2))
+      | GSamePlace => if path_eqb s tg then inl (ROk, ms_h st) else next st
+      | GWithin => if f_move_within_plain fa && is_prefix s tg then inl (RErr EInvalid, ms_h st)
+                   else if negb (f_move_within_plain fa) && negb (path_eqb tg d) && is_prefix s tg then inl (RErr EInvalid, ms_h st)
+                   else next st                                  (* not plain: only evaluated when re-targeted *)
+      | GNonEmptyTarget => let '(et, h3) := m_exists t tg in
+                           if is_dir_b t s && et && is_dir_b t tg && negb (m_empty_b t tg)
+                           then inl (RErr EExists, (ms_h st + h3 + h3 + 1)%nat) else next (mkMs tg (ms_h st + h3))
+      end
+  end.
+
+Definition m_move (fa : facts) (fuel : nat) (t : tree) (s : path) (str : bool) (d : path) (dtr : bool) : option (res * tree * hs) :=
+  match m_move_guards fa (f_move_guards fa) t s str d dtr (mkMs d O) with
+  | inl (r, h) => Some (r, t, hb h)
+  | inr st => match m_move_raw fa fuel t s (ms_target st) with
+              | Some (r, t', h4) => Some (r, t', hb (ms_h st) +h h4)
+              | None => None
+              end
+  end.
 
 (* ---- listings ---- *)
 
@@ -392,8 +435,22 @@ Definition m_tree (t : tree) (p : path) : option res :=
   if is_dir_b t p then match m_tree_names (rm_fuel t) t p with Some l => Some (RNames l) | None => None end
   else Some (RErr EInvalid).
 
+(* ---- calls on the empty name: Stat / GenericOpen / OpenFile guarded by checkPathIsNotEmpty, or not (facts).  Without the
+   guard a back end may resolve "" to its own root (afero MemMapFs does): modelled as "the root directory". ---- *)
+Definition m_exec_empty (fa : facts) (t : tree) (c : call) : option mres :=
+  match c with
+  | Exists PEmpty => Some (mkM (RBool (negb (f_empty_stat fa))) t O O)
+  | IsFile PEmpty => Some (mkM (RBool false) t O O)
+  | IsDir PEmpty => Some (if f_empty_stat fa then mkM (RErr ENotFound) t O O else mkM (RBool true) t 1 1)
+  | IsEmpty PEmpty => Some (if f_empty_stat fa then mkM (RBool true) t O O else mkM (RBool false) t 1 1)
+  | Size PEmpty => Some (if f_empty_stat fa then mkM (RErr ENotFound) t O O else mkM (RNum 4096) t O O)
+  | Read PEmpty => Some (if f_empty_open fa then mkM (RErr ENotFound) t O O else mkM (RErr EOther) t 1 1)
+  | Write PEmpty _ => Some (if f_empty_openfile fa then mkM (RErr ENotFound) t O O else mkM (RErr EOther) t O O)
+  | _ => None
+  end.
+
 (* the calls M covers *)
-Definition m_exec (t : tree) (c : call) : option mres :=
+Definition m_exec (fa : facts) (t : tree) (c : call) : option mres :=
   match c with
   | Exists (P p _) => let '(e, h) := m_exists t p in Some (mkM (RBool e) t h h)
   | IsFile (P p _) => let '(e, h) := m_isfile t p in Some (mkM (RBool e) t h h)
@@ -401,47 +458,47 @@ Definition m_exec (t : tree) (c : call) : option mres :=
   | IsEmpty (P p _) => Some (m_isempty t p)
   | Mkdir (P p _) => Some (m_mkdir t p)
   | Touch (P p tr) => Some (m_touch t p tr)
-  | Write (P p _) c => Some (m_write t p c)
+  | Write (P p _) c => Some (m_write fa t p c)
   | Read (P p _) => Some (m_read t p)
   | Ls (P p _) => Some (m_ls t p)
   | Size (P p _) => Some (m_size t p)
   | Rm (P (a :: p) _) => lift3 (m_rm (rm_fuel t) t (a :: p))
   | Clean (P p _) => lift3 (m_clean (rm_fuel t) t p)
   | SubDirs (P p _) => Some (m_subdirs t p)
-  | Move (P (n :: s) str) (P d dtr) => lift3 (m_move (rm_fuel t) t (n :: s) str d dtr)
-  | CopyToFile (P s str) (P d dtr) => lift3 (m_copytofile (rm_fuel t) t s str d dtr)
+  | Move (P (n :: s) str) (P d dtr) => lift4 (m_move fa (rm_fuel t) t (n :: s) str d dtr)
+  | CopyToFile (P s str) (P d dtr) => lift4 (m_copytofile fa (rm_fuel t) t s str d dtr)
   (* Copy / CopyToDirectory of a FILE (or of a missing source): the destination-shape table; the recursive copy of a
-     directory is in [m_exec_all] below: modelled and compared with the implementation, its refinement is not proved *)
-  | Copy (P s str) (P d dtr) => if is_dir_b t s then None else lift3 (m_copy (rm_fuel t) t s str d dtr)
+     directory is in [m_exec_all] below (its refinement is an equality of finite maps, not of lists) *)
+  | Copy (P s str) (P d dtr) => if is_dir_b t s then None else lift4 (m_copy fa (rm_fuel t) t s str d dtr)
   | CopyToDir (P s str) (P d dtr) =>
       if is_dir_b (m_t (m_mkdir t d)) s then None
-      else lift3 (m_copytodir (rm_fuel (m_t (m_mkdir t d))) t (P s str) d dtr)
-  | _ => None
+      else lift4 (m_copytodir fa (rm_fuel (m_t (m_mkdir t d))) t (P s str) d dtr)
+  | _ => m_exec_empty fa t c
   end.
 
 (* everything M models, including the recursive directory copy *)
-Definition m_exec_all (t : tree) (c : call) : option mres :=
+Definition m_exec_all (fa : facts) (t : tree) (c : call) : option mres :=
   match c with
-  | Copy (P s str) (P d dtr) => lift3 (m_copy (rm_fuel t) t s str d dtr)
-  | CopyToDir a (P d dtr) => lift3 (m_copytodir (rm_fuel (m_t (m_mkdir t d))) t a d dtr)
-  | _ => m_exec t c
+  | Copy (P s str) (P d dtr) => lift4 (m_copy fa (rm_fuel t) t s str d dtr)
+  | CopyToDir a (P d dtr) => lift4 (m_copytodir fa (rm_fuel (m_t (m_mkdir t d))) t a d dtr)
+  | _ => m_exec fa t c
   end.
 
 (* a program on M: [None] as soon as a call is outside M's coverage; results, final tree, handles opened and closed *)
-Fixpoint m_run (t : tree) (cs : list call) : option (list res * tree * nat * nat) :=
+Fixpoint m_run (fa : facts) (t : tree) (cs : list call) : option (list res * tree * nat * nat) :=
   match cs with
   | [] => Some ([], t, O, O)
-  | c :: cs' => match m_exec t c with
+  | c :: cs' => match m_exec fa t c with
                 | None => None
-                | Some m => match m_run (m_t m) cs' with
+                | Some m => match m_run fa (m_t m) cs' with
                             | Some (rs, t', o, cl) => Some (m_r m :: rs, t', (m_opened m + o)%nat, (m_closed m + cl)%nat)
                             | None => None
                             end
                 end
   end.
 
-(* ---- correspondence: R and, for the calls it covers, M against the observations ---- *)
-Fixpoint check_steps_m (t : tree) (l : list stepobs) : bool :=
+(* ---- correspondence: R and, for the calls it covers, M INSTANTIATED WITH THE GENERATED FACTS, against the observations ---- *)
+Fixpoint check_steps_m (fa : facts) (t : tree) (l : list stepobs) : bool :=
   match l with
   | [] => true
   | s :: l' =>
@@ -453,10 +510,11 @@ Fixpoint check_steps_m (t : tree) (l : list stepobs) : bool :=
             | _ => true
             end) &&
       (if s_unconstrained s then true
-       else match m_exec_all t (s_call s) with
+       else match m_exec_all fa t (s_call s) with
             | None => true
             | Some m => res_eqb (m_r m) (s_res s) && tree_eqb (m_t m) t_obs && Nat.eqb (m_opened m) (m_closed m)
-            end) && check_steps_m t_obs l'
+            end) && check_steps_m fa t_obs l'
   end.
 
-Definition check_case_m (c : case) : bool := check_case c && wf_b (c_init c) && check_steps_m (c_init c) (c_steps c).
+Definition check_case_m (c : case) : bool :=
+  check_case c && wf_b (c_init c) && check_steps_m gen_facts (c_init c) (c_steps c).
